@@ -964,6 +964,20 @@ example : (step exState (.client { exC2 with port := 9001 } [5] 6)).2 =
 example : closedIds (step exState (.timeout 402)).2 = [1] ∧
     closedIds (step exState .closeAll).2 = [0, 1] := by decide
 
+/-- The contract gap behind finding `idle-flow-not-torn-down` (I/O shell): the
+    manager emits `ArmTimer` only when its earliest deadline *changes*. If the
+    shell's timer fires before the armed deadline (sozu's wheel rounds to the
+    nearest 100 ms tick, so up to 50 ms early), `handle_timeout` reaps nothing,
+    the earliest deadline is unchanged and **no** `ArmTimer` comes out: a shell
+    that re-arms only on `ArmTimer` now holds no timer and the flow is never
+    reaped. (`C19_idle_reclaimed` is about calls at/after the deadline.) -/
+theorem C19_timer_early_fire_counterexample :
+    (run (State.new exCfg 2 64) [.client exC1 [1] 0]).armed = some 400 ∧
+    (step (run (State.new exCfg 2 64) [.client exC1 [1] 0]) (.timeout 399)).2 = [] ∧
+    (step (run (State.new exCfg 2 64) [.client exC1 [1] 0]) (.timeout 399)).1.armed = some 400 ∧
+    (getFlow (step (run (State.new exCfg 2 64) [.client exC1 [1] 0]) (.timeout 399)).1 0).isSome = true := by
+  decide
+
 /-- trace-level accounting on a concrete run: two admissions, one idle close, one mass-teardown close -/
 example : admissionsIn (trace (State.new exCfg 2 64)
       [.client exC1 [1] 0, .client exC2 [3] 2, .resolved 0 "b0" cexB 3, .timeout 402, .closeAll]) = 2 ∧
